@@ -336,7 +336,9 @@ func (priv *PrivateKey) inverseOfPrivateKeyPlus1(c *sm2Curve) (*bigmod.Nat, erro
 		}
 	})
 	verifGate("done:sm2.inverseOfKeyPlus1")
-	if err != nil {
+	// err is local to this call and only set by the call that runs the Once body: on every
+	// later call a failed initialisation is visible only as a nil cached inverse.
+	if err != nil || priv.inverseOfKeyPlus1 == nil {
 		return nil, errInvalidPrivateKey
 	}
 	return priv.inverseOfKeyPlus1, nil
